@@ -234,7 +234,9 @@ impl CoverageFormat2<'_> {
             .ok()
             .map(|idx| {
                 let rec = &self.range_records()[idx];
-                rec.start_coverage_index() + gid.to_u16() - rec.start_glyph_id().to_u16()
+                // the index is font data: a record may claim more than 65535 covered glyphs before it
+                rec.start_coverage_index()
+                    .wrapping_add(gid.to_u16() - rec.start_glyph_id().to_u16())
             })
     }
 
